@@ -6,6 +6,7 @@
 
 mod ast;
 mod ops_api;
+mod ops_case;
 mod ops_engine;
 mod ops_features;
 #[cfg(feature = "pattern")]
@@ -71,7 +72,11 @@ fn main() {
         "c12sets" => ops_api::c12_sets(&mut rep, n, seed),
         "c16" => ops_api::c16(&mut rep, n, seed),
         "c17" => ops_api::c17(&mut rep, n, seed),
-        "c18" => ops_api::c18(&mut rep, thorough, n, seed),
+        "c18" => {
+            ops_api::c18(&mut rep, thorough, n, seed);
+            ops_case::c18_icase(&mut rep, &aux, n * 4, seed);
+        }
+        "c10" => ops_case::c10(&mut rep, &aux, thorough, seed),
         _ => {
             eprintln!("unknown command {}", cmd);
             std::process::exit(2);
